@@ -150,7 +150,7 @@ func checkC14(P *Prog, r *Result) {
 		paths, _ := P.nodePaths(fn)
 		var errPaths, okPaths []string
 		for _, p := range paths {
-			if !p.has("IS-FACTORY", "T") {
+			if !p.has("CALL-FACTORY", "") {
 				continue
 			}
 			if p.has("FACTORY-ERR", "T") {
